@@ -263,3 +263,9 @@ Definition emit_ok (c : emit_case) : bool :=
   if fz =? 0 then list_eqb ostmt_eqb (filter is_clause model) obs
   else list_eqb ostmt_eqb model obs.
 Definition check_emit := mismatches emit_ok.
+
+(* ---- __toESM calls of the real bundle: (importer is ESM-typed, inside an import() , ", 1" printed) ---- *)
+Definition toesm_ok (c : bool * bool * bool) : bool :=
+  let '(typed, dynamic, has1) := c in
+  Bool.eqb (to_esm_node_mode typed (if dynamic then IFDynamic else IFStatement true)) has1.
+Definition check_toesm := mismatches toesm_ok.
